@@ -49,6 +49,53 @@ from funsor.optimizer import apply_optimizer
 from funsor.sum_product import MarkovProduct
 from funsor.integrate import Integrate
 
+FACT_SRC = '''
+from funsor.factory import Bound, Fresh, Has, make_funsor
+from funsor.terms import Funsor as _F, Lambda as _Lambda
+import funsor.ops as _ops
+@make_funsor
+def FSumLast(x: _F, i: Bound) -> Fresh[lambda x: x]:
+    return x.reduce(_ops.add, i)
+@make_funsor
+def FSumFirst(i: Bound, x: _F) -> Fresh[lambda x: x]:
+    return x.reduce(_ops.add, i)
+@make_funsor
+def FSumHas(x: Has[{"i"}], i: Bound) -> Fresh[lambda x: x]:
+    return x.reduce(_ops.add, i)
+@make_funsor
+def FSumHasFirst(i: Bound, x: Has[{"i"}]) -> Fresh[lambda x: x]:
+    return x.reduce(_ops.add, i)
+@make_funsor
+def FDotMid(x: _F, i: Bound, y: _F) -> Fresh[lambda x: x]:
+    return (x * y).reduce(_ops.add, i)
+@make_funsor
+def FDotFirst(i: Bound, x: _F, y: _F) -> Fresh[lambda x: x]:
+    return (x * y).reduce(_ops.add, i)
+@make_funsor
+def FSum2(i: Bound, x: _F, j: Bound) -> Fresh[lambda x: x]:
+    return x.reduce(_ops.add, frozenset({i, j}))
+@make_funsor
+def FLamGet(i: Bound, x: _F, at: _F) -> Fresh[lambda x: x]:
+    return _Lambda(i, x)[at]
+@make_funsor
+def FRenFresh(x: _F, i: Bound, k: Fresh[lambda i: i]) -> Fresh[lambda x: x]:
+    return x(**{i.name: k})
+@make_funsor
+def FRenFreshFirst(k: Fresh[lambda i: i], i: Bound, x: _F) -> Fresh[lambda x: x]:
+    return x(**{i.name: k})
+'''
+import warnings as _warnings
+_warnings.filterwarnings("ignore", category=SyntaxWarning, module="funsor.factory")
+_fact_ns = {}
+exec(FACT_SRC, _fact_ns)
+# name -> (class, declaration order of the parameters: B<k> bound name, F<k> funsor argument, R<k> fresh name)
+FACT = {
+    "FSumLast": ("F0", "B0"), "FSumFirst": ("B0", "F0"), "FSumHas": ("F0", "B0"), "FSumHasFirst": ("B0", "F0"),
+    "FDotMid": ("F0", "B0", "F1"), "FDotFirst": ("B0", "F0", "F1"), "FSum2": ("B0", "F0", "B1"),
+    "FLamGet": ("B0", "F0", "F1"), "FRenFresh": ("F0", "B0", "R0"), "FRenFreshFirst": ("R0", "B0", "F0"),
+}
+FACT_CLS = {k: _fact_ns[k] for k in FACT}
+
 POOL = ["i", "j", "k"]
 RPOOL = ["x", "y"]
 SPOOL = ["p", "q"]          # extra names for MarkovProduct step pairs / Scatter destinations
@@ -128,7 +175,7 @@ class Gen:
                 return pick                             # would be re-typed / captured by the outer diag_var)
         cons = ["reduce", "reduce", "lamget", "cat", "subs", "subs"]
         if kind == "real":
-            cons += ["contr", "contr", "binary", "binary", "markov", "integ", "scatter", "approx"]
+            cons += ["contr", "contr", "binary", "binary", "markov", "integ", "scatter", "approx", "fac", "fac"]
             if allow_indep:
                 cons.append("indep")
         c = rng.choice(cons)
@@ -203,6 +250,8 @@ class Gen:
             else:
                 idx = ("bnum2", rng.randrange(2 * n))
             return ("cat", v, p, parts[0], parts[1], idx)
+        if c == "fac":
+            return self.make_fac(rng.choice(sorted(FACT)), d, allow_indep)
         if c == "markov":
             body = self.expr(d, "real", allow_indep)
             tn = rng.choice(POOL)
@@ -245,6 +294,31 @@ class Gen:
             return ("indep", body, bv, dv)
         raise ValueError(c)
 
+    def make_fac(self, name, d, allow_indep, v=None, w=None, body=None):
+        """a make_funsor-defined binder; v = bound name, w = second name (2nd bound / fresh / index variable)"""
+        rng = self.rng
+        v = v or rng.choice(POOL)
+        w = w or rng.choice(POOL)
+        f0 = self.force(body if body is not None else self.expr(d, "real", allow_indep), "real", v)
+        if name.startswith("FSum2"):
+            if w == v:
+                w = POOL[(POOL.index(v) + 1) % 3]
+            return ("fac", name, (v, w), (self.force(f0, "real", w),), ())
+        if name.startswith("FSum"):
+            return ("fac", name, (v,), (f0,), ())
+        if name.startswith("FDot"):
+            f1 = self.leaf("real", [v] if v == w else [v, w])
+            return ("fac", name, (v,), (f0, f1), ())
+        if name == "FLamGet":
+            at = ("bvar", w) if w != v else self.bint_atom_without(v)
+            return ("fac", name, (v,), (f0, at), ())
+        if name.startswith("FRenFresh"):
+            k = w if (w != v and w not in free(f0)) else "s"
+            if k in free(f0) - {v}:
+                return ("fac", "FSumFirst", (v,), (f0,), ())
+            return ("fac", name, (v,), (f0,), (k,))
+        raise ValueError(name)
+
     def bint_atom_without(self, v):
         for _ in range(20):
             a = self.bint_atom()
@@ -255,7 +329,7 @@ class Gen:
 
 def kind_of(r):
     t = r[0]
-    if t in ("leaf", "binary", "contr", "indep", "rget", "markov", "integ", "scatter", "approx"):
+    if t in ("leaf", "binary", "contr", "indep", "rget", "markov", "integ", "scatter", "approx", "fac"):
         return "real"
     if t in ("bleaf", "bvar", "bnum"):
         return "bint"
@@ -303,6 +377,11 @@ def free(r):
         return (free(r[4]) - {r[2]}) | {r[1]}
     if t == "approx":      # ("approx", v, model, guide_leaf)
         return free(r[2]) | free(r[3])
+    if t == "fac":         # ("fac", class name, bound names, funsor arguments, fresh names): every argument is in scope
+        out = set()
+        for a in r[3]:
+            out |= free(a)
+        return (out - set(r[2])) | set(r[4])
     raise ValueError(t)
 
 
@@ -326,12 +405,13 @@ def real_names(r):
     return out
 
 
-TAGS = {"markov", "integ", "scatter", "approx", "rget", "leaf", "bleaf", "bleaf2", "bvar", "bnum", "bnum2", "binary", "reduce", "lamget", "contr", "subs", "cat", "indep"}
+TAGS = {"fac", "markov", "integ", "scatter", "approx", "rget", "leaf", "bleaf", "bleaf2", "bvar", "bnum", "bnum2", "binary", "reduce", "lamget", "contr", "subs", "cat", "indep"}
 
 
 def subrecipes(r):
     yield r
-    for x in r[1:]:
+    kids = r[3] if r[0] == "fac" else r[1:]
+    for x in kids:
         if isinstance(x, tuple) and x and isinstance(x[0], str) and x[0] in TAGS:
             yield from subrecipes(x)
 
@@ -359,15 +439,17 @@ def binders(r):
             out.append(s[1])
         elif t == "scatter":
             out.append(s[2])
+        elif t == "fac":
+            out += list(s[2])
     return out
 
 
 def depth_of(r):
     """nesting depth of binder constructors"""
     t = r[0]
-    kids = [x for x in r[1:] if isinstance(x, tuple) and x and isinstance(x[0], str) and x[0] in TAGS]
+    kids = [x for x in (r[3] if t == "fac" else r[1:]) if isinstance(x, tuple) and x and isinstance(x[0], str) and x[0] in TAGS]
     d = max([depth_of(k) for k in kids], default=0)
-    return d + (1 if t in ("reduce", "lamget", "contr", "subs", "cat", "indep", "markov", "integ", "scatter") else 0)
+    return d + (1 if t in ("reduce", "lamget", "contr", "subs", "cat", "indep", "markov", "integ", "scatter", "fac") else 0)
 
 
 # ------------------------------------------------------------------------------------------------
@@ -442,6 +524,17 @@ def build(r, n, cache=None):
         return Scatter(ops.add, ((r[1], idx),), build(r[4], n, cache), frozenset({Variable(r[2], Bint[n])}))
     if t == "approx":
         return build(r[2], n, cache).approximate(ops.logaddexp, build(r[3], n, cache), r[1])
+    if t == "fac":
+        args = []
+        for spec in FACT[r[1]]:
+            k = int(spec[1])
+            if spec[0] == "B":
+                args.append(Variable(r[2][k], Bint[n]))
+            elif spec[0] == "F":
+                args.append(build(r[3][k], n, cache))
+            else:
+                args.append(r[4][k])
+        return FACT_CLS[r[1]](*args)
     raise ValueError(t)
 
 
@@ -501,6 +594,19 @@ def wire(r, n):
         return ["subs", wire(r[4], n), [[Q(r[2]), ["tensor", [[Q(r[1]), n]], B, inv]]]]
     if t == "approx":
         return wire(r[2], n)
+    if t == "fac":         # the user-level meaning of the factory-defined binder (its function body)
+        nm_, bs, fs = r[1], r[2], [wire(a, n) for a in r[3]]
+        if nm_.startswith("FSum2"):
+            return ["reduce", "add", fs[0], [[Q(bs[0]), B], [Q(bs[1]), B]]]
+        if nm_.startswith("FSum"):
+            return ["reduce", "add", fs[0], [[Q(bs[0]), B]]]
+        if nm_.startswith("FDot"):
+            return ["contraction", "add", "mul", [[Q(bs[0]), B]], fs[0], fs[1]]
+        if nm_ == "FLamGet":
+            return ["binary", ["getitem", ["offset", 0]], ["lambda", Q(bs[0]), n, fs[0]], fs[1]]
+        if nm_.startswith("FRenFresh"):
+            return ["subs", fs[0], [[Q(bs[0]), ["var", Q(r[4][0]), B]]]]
+        raise ValueError(nm_)
     raise ValueError(t)
 
 
@@ -547,6 +653,17 @@ def pyof(r, n, names=None):
                 f"{pyof(r[4], n)}, frozenset({{Variable({r[2]!r}, Bint[{n}])}}))")
     if t == "approx":
         return f"({pyof(r[2], n)}).approximate(ops.logaddexp, {pyof(r[3], n)}, {r[1]!r})"
+    if t == "fac":
+        args = []
+        for spec in FACT[r[1]]:
+            k = int(spec[1])
+            if spec[0] == "B":
+                args.append(f"Variable({r[2][k]!r}, Bint[{n}])")
+            elif spec[0] == "F":
+                args.append(pyof(r[3][k], n))
+            else:
+                args.append(repr(r[4][k]))
+        return f"{r[1]}({', '.join(args)})"
     raise ValueError(t)
 
 
@@ -563,6 +680,7 @@ from funsor.integrate import Integrate
 from funsor.interpretations import reflect, lazy, eager, normalize
 from funsor.interpreter import reinterpret
 import funsor.ops as ops
+""" + FACT_SRC + """
 def red(body, op, v, n):
     return body.reduce(op, v) if v in body.inputs else Reduce(op, body, frozenset({Variable(v, Bint[n])}))
 """
@@ -656,6 +774,20 @@ def pyeval(r, env, n, xval=None):
         return pyeval(r[4], e2, n, xval)
     if t == "approx":
         return pyeval(r[2], env, n, xval)
+    if t == "fac":
+        nm_, bs, fs = r[1], r[2], r[3]
+        if nm_.startswith("FSum2"):
+            return sum(pyeval(fs[0], {**env, bs[0]: a, bs[1]: b}, n, xval) for a in range(n) for b in range(n))
+        if nm_.startswith("FSum"):
+            return sum(pyeval(fs[0], {**env, bs[0]: a}, n, xval) for a in range(n))
+        if nm_.startswith("FDot"):
+            return sum(pyeval(fs[0], {**env, bs[0]: a}, n, xval) * pyeval(fs[1], {**env, bs[0]: a}, n, xval)
+                       for a in range(n))
+        if nm_ == "FLamGet":
+            return pyeval(fs[0], {**env, bs[0]: pyeval(fs[1], env, n, xval)}, n, xval)
+        if nm_.startswith("FRenFresh"):
+            return pyeval(fs[0], {**env, bs[0]: env[r[4][0]]}, n, xval)
+        raise ValueError(nm_)
     raise ValueError(t)
 
 
@@ -725,6 +857,10 @@ def rename_binders(r, counter=None, m=None):
         return ("scatter", nm(r[1]), u, r[3], rename_binders(r[4], counter, {**m, r[2]: u}))
     if t == "approx":
         return ("approx", nm(r[1]), rename_binders(r[2], counter, m), rename_binders(r[3], counter, m))
+    if t == "fac":
+        us = tuple(fresh() for _ in r[2])
+        m2 = {**m, **dict(zip(r[2], us))}
+        return ("fac", r[1], us, tuple(rename_binders(a, counter, m2) for a in r[3]), tuple(nm(k) for k in r[4]))
     raise ValueError(t)
 
 
@@ -813,6 +949,10 @@ def documented_bound(node):
         return set(node.subs)
     if isinstance(node, MarkovProduct):
         return {node.time.name} | set(node.step) | set(node.step.values())
+    for nm_, cls in FACT_CLS.items():
+        if isinstance(node, cls):
+            fields = cls._ast_fields
+            return {getattr(node, f).name for f, spec in zip(fields, FACT[nm_]) if spec[0] == "B"}
     return set()
 
 
@@ -1063,6 +1203,8 @@ def mk(g, cons, v, w, body):
         if has_indep(body):
             return None
         return ("indep", g.force(body, "real", v), v, "x" if w == "i" else "y")
+    if cons.startswith("fac:"):
+        return g.make_fac(cons[4:], 0, False, v=v, w=w, body=body)
     if cons in ("markov", "markov-hom"):
         # time name v (adversarial), step pair (p, q); the auxiliary name w stays a free input of the transition
         b = body
@@ -1120,10 +1262,11 @@ def enum_stream(ctx):
     # the four further binder classes, as inner and as outer constructor of every class, then a substitution of a
     # value named like ANY pool name (so: like the time / reduced / source name) for a remaining free input
     extra = []
-    for c2 in CONS2:
-        for c1 in CONS + CONS2:
+    CONS3 = ["fac:" + k for k in sorted(FACT)]       # make_funsor binders: every declaration order
+    for c2 in CONS2 + CONS3:
+        for c1 in CONS + CONS2 + CONS3:
             for v2, v1, w in itertools.product(POOL, POOL, POOL):
-                if quick and rng.random() > 0.2:
+                if quick and rng.random() > (0.04 if (c2 in CONS3 and c1 in CONS3) else 0.07):
                     continue
                 for inner_c, outer_c, vi, vo in ((c2, c1, v2, v1), (c1, c2, v1, v2)):
                     inner = mk(g, inner_c, vi, w, base)
